@@ -60,7 +60,9 @@ func buildRendition(rng *rand.Rand, site *origin.Site, plURL string, container s
 			pl.RangeStartEvery = 2 + nTotal%3 // explicit offsets again in the middle of the run
 		}
 	}()
-	forms := []string{"seg_%d.bin", "sub/dir/seg_%d.bin", "/abs/path/seg_%d.bin", "http://cdn.example.net/x/seg_%d.bin", "../up/seg_%d.bin", "seg_%d.bin?tok=a%%20b&n=1"}
+	forms := []string{"seg_%d.bin", "sub/dir/seg_%d.bin", "/abs/path/seg_%d.bin", "http://cdn.example.net/x/seg_%d.bin", "../up/seg_%d.bin", "seg_%d.bin?tok=a%%20b&n=1",
+		// relative references whose query carries a URL (":" and "/" need no escaping there)
+		"seg_%d.bin?origin=https://origin.example/live&n=1", "sub/seg_%d.bin?back=http://a.example/x/y.m3u8"}
 	// file names carry the rendition tag so that renditions never share a URL
 	r.uriForm = strings.Replace(forms[rng.Intn(len(forms))], "seg_", fmt.Sprintf("r%d_seg_", tagBase), 1)
 	r.rangeMode = []string{"none", "none", "start", "nostart"}[rng.Intn(4)]
